@@ -28,6 +28,7 @@ D1(a, b) == (<<0>> :> a) @@ (<<1>> :> b)
 D2(a, b, c, d) == (<<0, 0>> :> a) @@ (<<0, 1>> :> b) @@ (<<1, 0>> :> c) @@ (<<1, 1>> :> d)
 Inputs == {
   D1(<<1, 2>>, <<1, 2>>), D1(R(1), R(3)), D1(R(0), R(2)),
+  D1(<<1, 2>>, <<5000001, 10000000>>),                                               \* total 1 + 1e-7: not normalised, must be rescaled
   D2(<<1, 4>>, <<1, 4>>, <<1, 4>>, <<1, 4>>), D2(R(1), R(2), R(3), R(0)), D2(<<1, 8>>, <<3, 8>>, <<1, 2>>, R(0)),
   (<<0, 2>> :> R(1)) @@ (<<2, 1>> :> R(1)) @@ (<<1, 1>> :> R(2)),                  \* non-bit outcomes
   (<<0, 1>> :> <<1, 2>>) @@ (<<1, 0>> :> <<1, 2>>),                                 \* missing keys
